@@ -19,7 +19,7 @@ TECHNIQUE = ('property-based testing (Hypothesis), metamorphic relations over ge
              'reset_initial_values(), of a deepcopy and of a JSON-reloaded model equal those of the first run')
 RULE = ('Generated model (netgen network with tanks, pumps, valves, CV pipes, leaks, DD/PDD + simple controls on link '
         'status, valve setting and pump speed conditioned on tank level / time / clock time + rules with ELSE; in one case in four the initial statuses of pipes and pumps are passed to add_pipe/add_pump as ints) and a '
-        'generated history of 2-5 operations from {W: reset if needed and run WNTRSimulator, E: run EpanetSimulator, '
+        'generated history of 2-5 operations from {W: reset if needed and run WNTRSimulator, E: run EpanetSimulator (its results on the used model are compared with those on a freshly built one), '
         'C: deepcopy then run, J: JSON round trip then run, P: pickle round trip then run, R: run a copy whose numeric report '
         'step is shorter than the hydraulic step (dictionary check only)}, starting with W. Non-trivial '
         '= the first run converged and some link status, valve setting or leak state changes during it; distinct = SHA-1.')
@@ -53,6 +53,8 @@ def strategy(draw, tier='quick'):
     for v in sp['valves']:
         if draw(st.booleans()):
             val = {'PRV': 12.0, 'PSV': 9.0, 'FCV': 0.002, 'TCV': 7.0}[v['type']]
+            if v['type'] == 'FCV' and abs(v['setting'] - val) < 1e-12:
+                val = 0.004
             extra.append({'kind': 'time', 'at': o['hyd'] * draw(st.integers(0, max(1, o['duration'] // o['hyd']))),
                           'link': v['name'], 'attr': 'setting', 'value': val})
     for p in sp['pumps']:
@@ -65,6 +67,10 @@ def strategy(draw, tier='quick'):
         sp['int_status'] = True       # pipes and pumps get their initial status as an int (accepted by add_pipe/add_pump)
     n = draw(st.integers(1, 3))
     ops = ['W'] + [draw(st.sampled_from(OPS)) for _ in range(n)]
+    ctl_valves = [c['link'] for c in sp['controls'] if c['attr'] == 'setting']
+    if ctl_valves and draw(st.booleans()):
+        # a valve whose setting a control changes: EPANET right after the WNTR run, on the model as that run left it
+        ops = ['W', 'E'] + ops[1:]
     return {'spec': sp, 'rules': base['rules'], 'ops': ops}
 
 
@@ -193,11 +199,38 @@ def check(case):
                 model = copy.deepcopy(wn)
                 model.options.time.report_timestep = o['hyd']
                 before = _dict(model)
+            res_e = None
             try:
                 sim = wntr.sim.EpanetSimulator(model)
-                sim.run_sim(file_prefix='c11tmp')
+                res_e = sim.run_sim(file_prefix='c11tmp')
             except Exception as e:
                 tags.append('epanet_refused:%s' % type(e).__name__)
+            if res_e is not None and ref is not None:
+                # 'simulating equal models gives equal results': EPANET on the model as the history left it (not reset)
+                # against EPANET on a model freshly built from the same spec - the same engine on what must be the
+                # same input file
+                try:
+                    fresh = c10.build(case)
+                    fresh.options.time.report_timestep = model.options.time.report_timestep
+                    res_f = wntr.sim.EpanetSimulator(fresh).run_sim(file_prefix='c11tmpf')
+                except Exception:
+                    res_f = None
+                if res_f is not None:
+                    tags.append('epanet_used_vs_fresh_compared')
+                    for grp, key in (('node', 'head'), ('link', 'flowrate')):
+                        a = getattr(res_e, grp)[key]
+                        b = getattr(res_f, grp)[key]
+                        if a.shape != b.shape:
+                            return fail('results/epanet_used_model_vs_fresh/shape', 'EpanetSimulator results of the used model '
+                                        'have shape %r, of a fresh model %r (history %s)' % (a.shape, b.shape, case['ops']), tags)
+                        dev = (a - b[a.columns]).abs()
+                        scale = max(1.0, float(b.abs().max().max())) if key == 'head' else max(1e-3, float(b.abs().max().max()))
+                        if float(dev.max().max()) > 1e-4 * scale:
+                            col = dev.max().idxmax()
+                            return fail('results/epanet_used_model_vs_fresh/%s' % key,
+                                        'EpanetSimulator on the model after the history %s (not reset) and on a freshly built '
+                                        'model differ in %s of %s by %.6g (scale %.6g)'
+                                        % (case['ops'], key, col, float(dev.max().max()), scale), tags)
             d1 = _dict(model)
             if d1 != before:
                 diff = _first_diff(json.loads(before), json.loads(d1)) or 'text differs'
